@@ -72,3 +72,11 @@ func packRR(rr dns.RR) ([]byte, error) {
 	}
 	return buf[:off], nil
 }
+
+func hxs(bs [][]byte) []string {
+	o := make([]string, len(bs))
+	for i, b := range bs {
+		o[i] = hx(b)
+	}
+	return o
+}
